@@ -865,6 +865,40 @@ fn header_reader_body(ch: &Chooser, docs: &[(&'static str, GHeader)]) -> Outcome
     }
 }
 
+/// Counts at and above the internal caps of the header path (see `gsam::hcaps`): one document per count,
+/// SAM <-> BAM in both directions, raw and BGZF, plus the binary-only-dictionary variant.
+fn caps_body(ch: &Chooser, docs: &[gsam::hcaps::Doc]) -> Outcome {
+    let doc = ch.pick_free("document", docs);
+    let container = *ch.pick_free("container", &[Container::Raw, Container::Bgzf]);
+    let describe = || {
+        format!(
+            "header document `{}` ({} lines, {} bytes of text; gsam::hcaps::docs) + 2 records (first reference; last reference with mate on the middle one), BAM as {container:?}",
+            doc.label,
+            doc.header.lines.len(),
+            doc.header.to_text().len()
+        )
+    };
+    ch.desc(|| describe());
+    match gsam::hcaps::check_doc(doc, container) {
+        Ok((s, b)) => {
+            ch.obs_hash((s, b));
+            if doc.header.refs().len() > 65536 {
+                ch.tag("caps: more than 65536 references");
+            }
+            if doc.binary_only {
+                ch.tag("caps: binary-only dictionary variant");
+            }
+            ch.steps(20);
+            Ok(())
+        }
+        Err(f) => {
+            let class = doc.label.split('=').next().unwrap_or("?");
+            let above = if class == "n_ref" { format!(" refs>65536={}", doc.header.refs().len() > 65536) } else { String::new() };
+            Err(Violation::new(format!("stage=caps-{} doc={class}{above} what={}", f.stage, f.what), describe(), f.expected, f.observed))
+        }
+    }
+}
+
 fn main() {
     unsafe {
         libc::mallopt(libc::M_MMAP_THRESHOLD, 32 << 20);
@@ -878,6 +912,11 @@ fn main() {
              headers: 0..3 @SQ x 0..2 @RG x 0..3 @PG x 0..2 @CO (free) with every line k deviations from its default over \
              standard/user tags, LN bounds, tag orders, line orders and invalid shapes, with/without a following record; \
              distinct = distinct decoded contents observed",
+        );
+        ctx.rule(
+            "caps: one document per count at cap-1/cap/cap+1/well above: n_ref 65535/65536/65537/70000 (thorough +131073, 200000), \
+             65537 @RG lines (thorough: @RG/@PG/@CO at 65535..65537, 200000 @CO), header text length 8191..8193 and 65535..65537 \
+             (thorough: 2^20-1, 2^20, 2^24+1) x {raw, BGZF}: SAM<->BAM both directions + BAM with a binary-only dictionary",
         );
         ctx.rule(
             "dyn: every record of the field-presence set (+ mate-reference shapes) alone and all together x source {SAM, BAM raw, BAM BGZF}, \
@@ -907,6 +946,11 @@ fn main() {
             nrec_free,
         };
         let _: Option<GHeader> = None;
+        // counts at and above the internal caps of the header path
+        {
+            let docs = gsam::hcaps::docs(!ctx.quick());
+            ctx.harness(Config::new("count_caps", 0).threads(4), |ch| caps_body(ch, &docs));
+        }
         // records as Box<dyn Record> through the format-agnostic traits and noodles_util
         {
             let mut set = reuse::record_set();
